@@ -60,14 +60,21 @@ def run(spec, rec):
      "switches": run_switches, "station": run_station}[kind](spec, rec, dadi)
 
 
-def composed_model(dadi, asfunc):
+def composed_model(dadi, asfunc, abs_time=False):
+    """epochs run one after the other; with abs_time on one absolute time axis (each call starts at initial_t = end of the previous)"""
     from dadi import Numerics, PhiManip, Integration, Spectrum
 
     def model(epochs, ns, pts):
         xx = Numerics.default_grid(pts)
         phi = PhiManip.phi_1D(xx)
+        t0 = 0.0
         for nu, T in epochs:
-            phi = Integration.one_pop(phi, xx, T, (lambda t, nu=nu: nu) if asfunc else nu)
+            nu_arg = (lambda t, nu=nu: nu) if asfunc else nu
+            if abs_time:
+                phi = Integration.one_pop(phi, xx, t0 + T, nu_arg, initial_t=t0)
+                t0 = t0 + T
+            else:
+                phi = Integration.one_pop(phi, xx, T, nu_arg)
         return Spectrum.from_phi(phi, ns, (xx,))
     return model
 
@@ -119,7 +126,7 @@ def run_neutral(spec, rec, dadi):
             model, args = Demographics1D.bottlegrowth_1d, (nuB, nuF, T)
         else:
             epochs = draw_history(rng)
-            model, args = composed_model(dadi, asfunc), epochs
+            model, args = composed_model(dadi, asfunc, abs_time=(ci % 3 == 2 and not spec.get("fixed_case"))), epochs
         if spec["b"] == 0 and ci < 2 and not spec.get("fixed_case"):
             # sizes that shrink 100-fold inside one call with the size passed as a function of time (the library's own growth
             # models): the step must follow the shrinking population
